@@ -5,6 +5,7 @@ import (
 	"math/rand/v2"
 	"os"
 	"sort"
+	"strings"
 	"sync"
 	"time"
 
@@ -508,6 +509,9 @@ var schedulePoints = []string{
 	"crash:flush.close.vector", "crash:flush.close.hybrid", "crash:flush.added", "flush.registered", "flush.dropped",
 	"segment.load.begin", "segment.load.done", "search.listed-memtables", "search.listed-segments", "memq.list", "segmgr.list",
 	"compact.begin", "crash:compact.create.hybrid", "crash:compact.written", "crash:compact.added", "crash:compact.removed", "crash:delete.before", "compact.end",
+	// "@roomy": the same point with a memtable limit far above the workload, so the paused write sits in a memtable that
+	// already holds documents (with the tiny limit nearly every add rotates first and finds an empty one)
+	"memq.add.picked@roomy", "memtable.add.prelock@roomy", "memtable.add.locked@roomy", "flush.begin@roomy", "search.listed-memtables@roomy",
 }
 
 var scheduleActions = []string{"add", "add-forcing-rotation", "search-all", "flush", "evict", "remove-newest", "flush-then-rotating-adds"}
@@ -562,6 +566,11 @@ func runC08Schedules(r *ev.Run) {
 func runOneSchedule(r *ev.Run, ctl *hookCtl, own *ownership, ci int, rng *rand.Rand, point, action string) (interleaving string) {
 	p := storeParams{VecKind: "flat", Text: true, Meta: true, Dim: 3, Metric: comet.Euclidean, CompactionThreshold: 2,
 		MemtableSizeLimit: 700, FlushThreshold: 1 << 40}
+	pointLabel := point
+	if strings.HasSuffix(point, "@roomy") {
+		point = strings.TrimSuffix(point, "@roomy")
+		p.MemtableSizeLimit = 1 << 20
+	}
 	dir, err := os.MkdirTemp("", "verif-c08s-*")
 	if err != nil {
 		panic(err)
@@ -589,7 +598,7 @@ func runOneSchedule(r *ev.Run, ctl *hookCtl, own *ownership, ci int, rng *rand.R
 		logMu.Lock()
 		l := append([]string(nil), log...)
 		logMu.Unlock()
-		r.ViolationAt("schedule", ci, sig, fmt.Sprintf("point=%s action=%s: %s", point, action, what), map[string]any{"point": point, "action": action, "log": l})
+		r.ViolationAt("schedule", ci, sig, fmt.Sprintf("point=%s action=%s: %s", pointLabel, action, what), map[string]any{"point": pointLabel, "action": action, "log": l})
 	}
 	ids := newIDGen(rng)
 	ids.min = 1 << 24
@@ -661,6 +670,9 @@ func runOneSchedule(r *ev.Run, ctl *hookCtl, own *ownership, ci int, rng *rand.R
 	inTime := false
 	ctl.resetTrace(true)
 	ctl.setTarget(point, 1, func(args []any) {
+		if r.Verbose() {
+			addLog("at %s: memtables=%d segments=%v", point, s.VerifMemtableCount(), s.VerifSegmentIDs())
+		}
 		inTime, besideDone = runBeside(func() {
 			switch action {
 			case "add":
@@ -754,8 +766,8 @@ func runOneSchedule(r *ev.Run, ctl *hookCtl, own *ownership, ci int, rng *rand.R
 		}
 	}
 	if !fired {
-		r.Count("schedules:point-not-reached:"+point, 1)
-		r.Inconclusive("hook point not reached: " + point)
+		r.Count("schedules:point-not-reached:"+pointLabel, 1)
+		r.Inconclusive("hook point not reached: " + pointLabel)
 		return
 	}
 	if inTime {
@@ -768,7 +780,12 @@ func runOneSchedule(r *ev.Run, ctl *hookCtl, own *ownership, ci int, rng *rand.R
 	s.VerifEvictAllCaches()
 	checkStoreVisibility(repf, r, s, p, snap(), "after-schedule-evicted", everNow, removedNow)
 	r.Count("schedules:"+action, 1)
+	if r.Verbose() {
+		logMu.Lock()
+		fmt.Printf("schedule %s/%s inTime=%v log=%q\n", point, action, inTime, log)
+		logMu.Unlock()
+	}
 	sig := ctl.signature()
-	r.Eval(true, ev.Digest("sched", point, action, sig))
-	return point + "/" + action + "/" + sig
+	r.Eval(true, ev.Digest("sched", pointLabel, action, sig))
+	return pointLabel + "/" + action + "/" + sig
 }
